@@ -1,6 +1,6 @@
 (* C09 — non-vacuity examples for the hypotheses of Props.v *)
 From Coq Require Import ZArith List Lia.
-From FV Require Import Lib.RustInt C09.Model C09.Proofs C09.Proofs2 C09.Proofs3.
+From FV Require Import Lib.RustInt C09.Model C09.Proofs C09.Proofs2 C09.Proofs3 C09.Proofs4 C09.Proofs5.
 Import ListNotations.
 Open Scope Z_scope.
 
@@ -71,4 +71,19 @@ Example c09_to_path_two_offcurve_contours :
   to_path false (half_unit_points [0; 10; 10; 0; 100; 110; 110; 100] [0; 0; 10; 10; 0; 0; 10; 10] [0; 0; 0; 0; 0; 0; 0; 0]) [3; 7]
   = Some [PM 0 10; PQ 0 0 10 0; PQ 20 0 20 10; PQ 20 20 10 20; PQ 0 20 0 10; PZ;
           PM 200 10; PQ 200 0 210 0; PQ 220 0 220 10; PQ 220 20 210 20; PQ 200 20 200 10; PZ].
+Proof. vm_compute. reflexivity. Qed.
+
+(* front end: exact midpoint (even sums) is implied; the truncated half-midpoint of an odd sum is kept
+   (the input family of seeded mutant m6); the move-to point itself can be implied *)
+Example c09_elide_exact_vs_odd :
+  elide [(0, 0, true); (2, 2, false); (3, 1, true); (4, 0, false); (9, 9, true)]
+    = [(0, 0, true); (2, 2, false); (4, 0, false); (9, 9, true)]
+  /\ elide [(0, 0, true); (2, 2, false); (3, 1, true); (5, 0, false); (9, 9, true)]
+    = [(0, 0, true); (2, 2, false); (3, 1, true); (5, 0, false); (9, 9, true)]
+  /\ elide [(-3, -1, true); (-2, -2, false); (7, 7, true); (-4, 0, false)]
+    = [(-2, -2, false); (7, 7, true); (-4, 0, false)].
+Proof. repeat split; vm_compute; reflexivity. Qed.
+Example c09_elision_lossless_nonvacuous :
+  contour_to_path false (elide [(-3, -1, true); (-2, -2, false); (7, 7, true); (-4, 0, false)])
+  = [PM (-3) (-1); PQ (-2) (-2) 7 7; PQ (-4) 0 (-3) (-1); PZ].
 Proof. vm_compute. reflexivity. Qed.
